@@ -53,3 +53,17 @@ def run_all(path, timeout, workers, only=None):
     with ThreadPoolExecutor(max_workers=workers) as ex:
         futs = [ex.submit(run_condition, path, n, l, timeout) for n, l in conds]
         return [f.result() for f in futs]
+
+
+def eval_call(harness_path, call):
+    """Evaluate `fn(1, 2, ...)` of a harness module in a plain interpreter (no CrossHair)."""
+    import importlib.util
+    name = os.path.splitext(os.path.basename(harness_path))[0]
+    spec = importlib.util.spec_from_file_location(name, harness_path)
+    mod = importlib.util.module_from_spec(spec)
+    sys.modules[name] = mod
+    spec.loader.exec_module(mod)
+    tree = ast.parse(call, mode='eval').body
+    fn = getattr(mod, tree.func.id)
+    args = [ast.literal_eval(a) for a in tree.args]
+    return tree.func.id, args, fn(*args)
